@@ -125,6 +125,22 @@ class Builder:
             raise Undecidable("input %s is not in the counter-model" % name)
         return self.model[name]
 
+    def shaped(self, v, hint):
+        """An opaque object the contracts use as a sequence / mapping: rebuilt as a real tuple / list / dict from the model's view."""
+        if isinstance(v, dict) and "$obj" in v and hint:
+            h = hint.replace("nn:", "")
+            if h in ("tuple", "list") and "seq" in v:
+                items = [self.obj(x) for x in v["seq"]]
+                return tuple(items) if h == "tuple" else items
+            if h in ("tuple", "list") and "seq" not in v:
+                return () if h == "tuple" else []
+            if h in ("dict", "mapping"):
+                return {k: self.obj(x) for k, x in v.get("map", [])}
+            if h and h[0].isupper() and self.find_repo_class(h) is not None:
+                # declared to be an instance of a repository class: a stand-in of that class, whatever primitive reading the model suggests
+                return self.stub_instance(dict(v, classes=[h]), [h])
+        return self.obj(v)
+
     def obj(self, v):
         if v is None:
             return None
@@ -145,7 +161,8 @@ class Builder:
                     setattr(self.objs[nm], mname, (lambda val: (lambda *a, **k: val))(self.obj(mv)))
                 for a, av in (v.get("attrs") or {}).items():
                     try:
-                        setattr(self.objs[nm], a, self.obj(av))
+                        hint = re.match(r"Obj<(.*)>", (self.ctx.get("attr_types") or {}).get(a, "") or "")
+                        setattr(self.objs[nm], a, self.shaped(av, hint.group(1) if hint else None))
                     except Exception:
                         pass
             return self.objs[nm]
@@ -197,10 +214,15 @@ class Builder:
             except Exception:
                 pass
         for a, av in (v.get("attrs") or {}).items():
+            hint = re.match(r"Obj<(.*)>", (self.ctx.get("attr_types") or {}).get(a, "") or "")
+            val = self.shaped(av, hint.group(1) if hint else None)
             try:
-                object.__setattr__(o, a, self.obj(av))
+                object.__setattr__(o, a, val)
             except Exception:
-                pass
+                try:
+                    object.__setattr__(o, "_" + a, val)     # a read-only property backed by a private field of the same name
+                except Exception:
+                    pass
         return o
 
     def rec(self, v):
@@ -241,7 +263,7 @@ class Builder:
         if t == "None":
             return None
         if t == "Obj":
-            return self.obj(self.get(name))
+            return self.shaped(self.get(name), ty[1] if len(ty) > 1 else None)
         if t == "Opt":
             inner = ty[1]
             if inner[0] == "Obj":
@@ -379,6 +401,8 @@ class Native:
                    "first_index": self.first_index, "full_match": lambda x, pat: re.fullmatch(pat, x) is not None, "stamp": self.stamp, "dsum": self.dsum, "dnonneg": self.dnonneg, "pos": lambda l, x: list(l).index(x) if x in l else -1,
                    "str": str, "int": int, "bool": bool, "float": float, "obj": object, "len": len, "isinstance": self.isinst, "True": True, "False": False, "None": None})
         ns.update(natives)
+        if "__bind_ns__" in natives:
+            natives["__bind_ns__"]["ns"] = ns     # natives that are defined in terms of specification functions look them up late
         for name, (ps, body) in builder.ctx["specs"].items():
             ns[name] = self.make_spec(name, ps, body)
 
